@@ -23,6 +23,9 @@ FUNCTIONS = ["btc_hd_wallet.paper_wallet.PaperWallet.generate", "btc_hd_wallet.p
 BOUNDS = {"quick": {"values": "master key/chain code free; account free in [0, 2^31); interval [start, start+len) with start free in "
                               "[0, 2^31-len] (the exclusive end may equal 2^31); both networks", "interval length": "0..3"},
           "thorough": {"values": "as quick", "interval length": "0..6"}}
+BOUNDS_ADDED = 'wallets without mnemonic/passphrase (None entries) through json()'
+for _t in ("quick", "thorough"):
+    BOUNDS[_t]["histories, lifetimes, injected faults, boundary vectors"] = BOUNDS_ADDED
 STUBS = ["child derivation -> contract summary CKDK/CKDC (verified on the real code in C01/C02/C18)", "Base58Check -> summary",
          "HASH160/SHA-256 -> uninterpreted; secp256k1 -> group model", "mnemonic_from_entropy -> MNEM summary (C04)",
          "json.dumps -> recording stub", "mnemonic/passphrase -> opaque text"]
